@@ -58,6 +58,14 @@ func SetDebugLogger(logger *log.Logger) {
 }
 
 func RegisterCustomFunctions(customFunctionInfoTbl []CustomFunctionInfo) {
+	// The function table is read by every compilation
+	mu.Lock()
+	defer mu.Unlock()
+	registerCustomFunctions(customFunctionInfoTbl)
+}
+
+// registerCustomFunctions is called with the lock on the function table held
+func registerCustomFunctions(customFunctionInfoTbl []CustomFunctionInfo) {
 
 	pluginsLoaded = true
 
